@@ -34,7 +34,9 @@ import (
 	"math/rand"
 	"os"
 	"path/filepath"
+	"regexp"
 	"runtime"
+	"runtime/pprof"
 	"sort"
 	"strings"
 	"sync"
@@ -46,6 +48,7 @@ import (
 	"github.com/IrineSistiana/mosdns/v5/plugin/executable/sequence"
 	"github.com/miekg/dns"
 	"github.com/prometheus/client_golang/prometheus"
+	dto "github.com/prometheus/client_model/go"
 	"go.uber.org/zap"
 	"go.uber.org/zap/zapcore"
 	"go.uber.org/zap/zaptest/observer"
@@ -166,9 +169,67 @@ func (c capCfg) open(dumpFile string) (*box, error) {
 		args.DumpFile = dumpFile
 		cp = cacheplugin.NewCache(args, cacheplugin.Opts{Logger: logger})
 	}
-	b := &box{c: cp, api: cp.Api(), reg: prometheus.NewRegistry(), logs: logs}
+	b := &box{c: cp, api: cp.Api(), reg: prometheus.NewRegistry(), logs: logs, fast: map[string]prometheus.Metric{}}
 	_ = cp.RegMetricsTo(b.reg)
+	_ = cp.RegMetricsTo(metricCapture{b})
+	for _, n := range []string{"hit_total", "lazy_hit_total", "size_current"} {
+		if b.fast[n] == nil {
+			return nil, fmt.Errorf("the plugin registered no metric %s", n)
+		}
+	}
 	return b, nil
+}
+
+// metricCapture is a prometheus.Registerer that only remembers the plugin's
+// collectors, so a single metric can be read without gathering a registry.
+type metricCapture struct{ b *box }
+
+var fqNameRe = regexp.MustCompile(`fqName: "([^"]*)"`)
+
+func (m metricCapture) Register(c prometheus.Collector) error {
+	if mt, ok := c.(prometheus.Metric); ok {
+		if g := fqNameRe.FindStringSubmatch(mt.Desc().String()); g != nil {
+			m.b.fast[g[1]] = mt
+		}
+	}
+	return nil
+}
+func (m metricCapture) MustRegister(cs ...prometheus.Collector) {
+	for _, c := range cs {
+		_ = m.Register(c)
+	}
+}
+func (m metricCapture) Unregister(prometheus.Collector) bool { return true }
+
+func (b *box) fastVal(name string) int64 {
+	var d dto.Metric
+	if err := b.fast[name].Write(&d); err != nil {
+		return -1
+	}
+	if d.Counter != nil {
+		return int64(d.Counter.GetValue())
+	}
+	return int64(d.Gauge.GetValue())
+}
+
+func (b *box) fastSize() int { return int(b.fastVal("size_current")) }
+
+// fastProbe is probe() without registry gathering.
+func fastProbe(b *box, q *dns.Msg) (class string, r *dns.Msg) {
+	h0, l0 := b.fastVal("hit_total"), b.fastVal("lazy_hit_total")
+	r, err := b.exec(q, nil)
+	h1, l1 := b.fastVal("hit_total"), b.fastVal("lazy_hit_total")
+	switch {
+	case err != nil:
+		return "error", r
+	case l1 > l0 && r != nil:
+		return "stale", r
+	case h1 > h0 && r != nil:
+		return "hit", r
+	case r == nil:
+		return "miss", nil
+	}
+	return "odd", r
 }
 
 // store forces (q -> up) into the cache whether or not q is cached already.
@@ -345,7 +406,7 @@ func capRef(cfg capCfg, qs []qspec) (int, map[string]bool, error) {
 			return 0, nil, err
 		}
 	}
-	n := int(R.counters().size)
+	n := R.fastSize()
 	code, b := R.dump()
 	if code != 200 {
 		return n, nil, fmt.Errorf("reference cache /dump: %d", code)
@@ -441,7 +502,7 @@ func runCapCase(c capCase) *capResult {
 			return res
 		}
 		res.injectLive = len(injLive)
-		res.injectHeld = int(A.counters().size)
+		res.injectHeld = A.fastSize()
 		want, _, err := capRef(c.Cfg, injLive)
 		if err != nil {
 			res.inconclusive = append(res.inconclusive, "capacity reference: "+err.Error())
@@ -479,10 +540,10 @@ func runCapCase(c capCase) *capResult {
 	tA1 := make([]time.Time, len(specs))
 	for i, s := range specs {
 		tA0[i] = time.Now()
-		classA[i], ansA[i] = probe(A, s.Q.msg(uint16(i)))
+		classA[i], ansA[i] = fastProbe(A, s.Q.msg(uint16(i)))
 		tA1[i] = time.Now()
 	}
-	sizeA := int(A.counters().size)
+	sizeA := A.fastSize()
 
 	// ---- D ----
 	var D []byte
@@ -628,7 +689,7 @@ func runCapCase(c capCase) *capResult {
 		}
 	}
 	defer B.close()
-	res.held = int(B.counters().size)
+	res.held = B.fastSize()
 	if c.Path != "api" {
 		if n := B.infoCounts("cache dump loaded"); len(n) == 1 {
 			res.loadLogChecked = true
@@ -700,7 +761,7 @@ func runCapCase(c capCase) *capResult {
 	for i, s := range specs {
 		e := entryOf(s)
 		t1 := time.Now()
-		cb, rb := probe(B, s.Q.msg(uint16(i)))
+		cb, rb := fastProbe(B, s.Q.msg(uint16(i)))
 		t2 := time.Now()
 		ca, ra := classA[i], ansA[i]
 		if e != nil {
@@ -986,6 +1047,11 @@ func reportCapResult(r *capResult) {
 func runCapacityPhase() {
 	cases := capCases(rep.Seed, rep.Thorough())
 	t0 := time.Now()
+	if pf := os.Getenv("VERIF_C19_PROF"); pf != "" {
+		f, _ := os.Create(pf)
+		_ = pprof.StartCPUProfile(f)
+		defer pprof.StopCPUProfile()
+	}
 	runCapCases(cases)
 	rep.Extra("cap_phase_wall_ms", time.Since(t0).Milliseconds())
 	if rep.Violations() == 0 {
